@@ -840,6 +840,16 @@ func runC12(c *Checker) {
 				if f := fieldOfValue(a); f != nil && w.fieldKey(f) == "gbn.queue.quit" {
 					okk = true
 				}
+				// or the very channel value that newQueue stores into queue.quit (made into a local first)
+				if fq := w.Field("gbn.queue.quit"); fq != nil {
+					for _, st := range w.Stores(fq) {
+						if st.Parent() == nq && unwrapLoadAlloc(st.Val) == unwrapLoadAlloc(a) {
+							if _, isMk := unwrapLoadAlloc(a).(*ssa.MakeChan); isMk {
+								okk = true
+							}
+						}
+					}
+				}
 			}
 		}
 		c.decide(okk, "EXIT", "syncer.quit|is queue.quit", nq.Pos(), "the syncer shares the queue's quit channel", "the syncer's quit channel is not the queue's: Close does not wake the resend sync")
